@@ -137,11 +137,15 @@ func runC17(r *Run) {
 					a := c.Call.Args
 					if len(a) == 2 {
 						s0, s1 := backSlice(a[0]), backSlice(a[1])
+						// each operand is one quantity: the declared figure does not depend on the block gas meter,
+						// the consumed figure depends on nothing but the block gas meter
 						isWanted := func(s *Slice) bool {
-							return s.HasCall(func(g CallInfo) bool { return g.Name == "GetTransientGasWanted" }) && s.HasField("Params", "MinGasMultiplier")
+							return s.HasCall(func(g CallInfo) bool { return g.Name == "GetTransientGasWanted" }) && s.HasField("Params", "MinGasMultiplier") &&
+								!s.HasCall(func(g CallInfo) bool { return g.Name == "GasConsumedToLimit" || g.Name == "GasConsumed" })
 						}
 						isUsed := func(s *Slice) bool {
-							return s.HasCall(func(g CallInfo) bool { return g.Name == "GasConsumedToLimit" }) && !s.HasField("Params", "MinGasMultiplier")
+							return s.HasCall(func(g CallInfo) bool { return g.Name == "GasConsumedToLimit" }) && !s.HasField("Params", "MinGasMultiplier") &&
+								!s.HasCall(func(g CallInfo) bool { return g.Name == "GetTransientGasWanted" })
 						}
 						okChain = (isWanted(s0) && isUsed(s1)) || (isWanted(s1) && isUsed(s0))
 					}
